@@ -124,6 +124,7 @@ type vc struct {
 	callGuard         map[string]string // path condition under which the k-th call to a callee under contract was made
 	curCall           ssa.CallInstruction // the call instruction being modelled (stdlib models that need operand types)
 	pendingBinds      []Val               // captured variables of the closure whose contract is being applied
+	counted           map[string]bool     // call sites with a ghost counter (calls("callee#k") in the contract)
 	escInfo           *escInfo            // non-escaping allocation sites of the function under verification (localobj.go)
 	hasLocal          bool
 	counters          map[string]int
@@ -919,6 +920,21 @@ func (x *vc) loopHeader(fr *frame, st *state, li *loopInfo) {
 	}
 	// 2. havoc
 	mod := x.modifiedIn(fr, st, li)
+	if fr.top {
+		// ghost call counters mentioned by the contract: any loop may run their call sites (its invariant says how often)
+		if x.counted == nil {
+			x.counted = countedSites(x.topFC)
+		}
+		var sites []string
+		for site := range x.counted {
+			sites = append(sites, site)
+		}
+		sort.Strings(sites)
+		for _, site := range sites {
+			x.counter(st, site)
+			mod.add(counterName(site), "*")
+		}
+	}
 	x.havoc(st, mod, fmt.Sprintf("loop%d", li.ordinal))
 	if st.nextRef != "" {
 		nr := x.freshName("nextRef")
@@ -1094,6 +1110,9 @@ func (x *vc) havoc(st *state, mod *modSet, why string) {
 		sort.Strings(ks)
 		old := map[string]string{}
 		for _, k := range ks {
+			if strings.HasPrefix(k, "GCNT_") && !strings.HasPrefix(why, "loop") {
+				continue // ghost call counters of the function under verification: no callee can change them
+			}
 			if cur, ok := st.heap[k]; ok {
 				old[k] = cur
 			}
